@@ -19,7 +19,7 @@ REQUIRED = {t: ["oracle:C17.existing-target-refused", "oracle:C17.new-is-canonic
 
 def plan(tier, seed):
     if tier == "quick":
-        return [{"kind": "create-copy", "shard": s, "n": 100, "n_open": 36} for s in range(3)]
+        return [{"kind": "create-copy", "shard": s, "n": 300, "n_open": 60} for s in range(4)]
     return [{"kind": "create-copy", "shard": s, "n": 900, "n_open": 300} for s in range(12)]
 
 
